@@ -35,7 +35,7 @@ PROP = Prop(
                  "proved (no encoder model); it is what the differential run and the Spec evaluation on ground truth test",
                  "their hypotheses: the frames encode a log with increasing offsets (WfLog: base offset >= 0, records inside [first,last], "
                  "strictly increasing inside a batch and across batches; v2 unused attribute bits zero; only the last batch cut short inside; "
-                 "compressed wrappers carry only codec bits) and the aborted list is consistent with the log (AbortedConsistent: at an ABORT "
+                 "compressed wrappers carry only codec bits 0-1 and the timestamp-type bit, the inner messages of a LogAppendTime v1 wrapper are v1) and the aborted list is consistent with the log (AbortedConsistent: at an ABORT "
                  "marker at most one listed transaction of its producer is open, no listed transaction ended by a marker entirely below the fetch offset)"],
     partial="Proved for all inputs: order-independence of the aborted list, no panic on arbitrary bytes, truncated tail ignored, next offset monotone. "
             "Proved for every well-formed list of frames (v0/v1 messages, compressed v0/v1 wrappers with rebasing, v2 batches, last one possibly cut short, "
@@ -45,7 +45,7 @@ PROP = Prop(
             "hence the driver's predicate Spec.C06.holds on the model's result (spec_holds_partial); for all inputs the next offset is past every returned record (returned_below_next). "
             "Not proved: the same for aborted lists the property does not speak about (duplicates, transactions ended below the fetch offset: the full "
             "statements are false there, kept in comments), the byte-level encoding relation (frames of an encoded log stand in Rep to it). "
-            "Reported departure from the log format: v1 compressed wrapper marked LogAppendTime (key v1-wrapper-logappendtime-timestamp, corpus/C06).",
+            "Found here and repaired in /repo 581b089 (model follows, theorems cover it): v1 compressed wrapper stamped LogAppendTime (key v1-wrapper-logappendtime-timestamp, regression case in corpus/C06).",
 )
 MANIFEST = {
     "text": "Lean model of kgo.ProcessFetchPartition at two levels (byte-level framing walk with every slice expression an explicit panic outcome; "
@@ -66,8 +66,9 @@ MANIFEST = {
             "that the byte-level walk produces such frames for an encoded log (tested, not proved). The refinement theorems are named _partial because they assume an "
             "aborted list consistent with the log (each transaction once, none ended below the fetch offset); outside that the full statements are false in model and "
             "code and the property is silent. Offsets of magnitude >= 2^62 are only run for no-panic. Found and reported: readRawRecordsInto panicked on an overflowing "
-            "record-length varint (fixed in /repo 049c23c; key varint-overflow-record-length); a v1 compressed wrapper marked LogAppendTime is returned with the inner "
-            "timestamps and CreateTime attributes instead of the wrapper's timestamp (key v1-wrapper-logappendtime-timestamp, witness commented in corpus/C06; the "
-            "well-formed generator does not emit such wrappers, so the check does not flag it).",
+            "record-length varint (fixed in /repo 049c23c; key varint-overflow-record-length); a v1 compressed wrapper stamped LogAppendTime was returned with the inner "
+            "timestamps and CreateTime attributes instead of the wrapper's timestamp (fixed in /repo 581b089; key v1-wrapper-logappendtime-timestamp, regression case "
+            "with ground truth in corpus/C06; the well-formed generator now emits such wrappers). A v0 inner message inside a v1 wrapper (not allowed by the log format: "
+            "inner magic must equal the wrapper's) is accepted by the code and returned without timestamp; compared with the model only (malformed stream kind 6).",
     "technique": "Lean 4 proof (induction over the walk, explicit panic outcomes, refinement to a reference decoder with an aborter invariant) with differential correspondence and a reference-decoder oracle",
 }
